@@ -275,8 +275,8 @@ func (m *c31Machine) tickCheck(now time.Time) {
 		if s.heard && after != c31Absent {
 			bound := s.expMax.Add(neighborDownTimeoutS*time.Second + c31RemovalSlack)
 			if !now.Before(bound) {
-				m.t.Fatalf("%s: neighbour sent its last hello %v ago (holding time %v) and is still listed (%s): a silent neighbour must disappear eventually",
-					desc, now.Sub(s.expMin), s.expMax.Sub(s.expMin), c31StateName(after))
+				m.t.Fatalf("%s: the holding time of the neighbour's last hello ran out %v ago and it is still listed (%s): a silent neighbour must disappear eventually",
+					desc, now.Sub(s.expMax), c31StateName(after))
 			}
 		}
 	}
